@@ -57,6 +57,11 @@ pub enum IterKind {
     Mut,
     TRef,
     TMut,
+    /// through the IntoIterator impls of &AnyVec, &mut AnyVec, AnyVecRef, AnyVecMut
+    IRef,
+    IMut,
+    ITRef,
+    ITMut,
 }
 #[derive(Clone, Copy, Debug, PartialEq)]
 pub enum RKind {
@@ -247,6 +252,10 @@ fn parse_ik(s: &str) -> IterKind {
         "mut" => IterKind::Mut,
         "tref" => IterKind::TRef,
         "tmut" => IterKind::TMut,
+        "iref" => IterKind::IRef,
+        "imut" => IterKind::IMut,
+        "itref" => IterKind::ITRef,
+        "itmut" => IterKind::ITMut,
         _ => panic!("bad iterkind {:?}", s),
     }
 }
